@@ -171,7 +171,13 @@ def build(unit, workdir):
                 body = strip_comments(f["body"])
                 if not cfg.get("no_inline") and not unit.get("no_inline"):
                     ilog = {}
-                    body = inline.inline_helpers(S, cfg.get("src", fnpath), body, known_text, ilog)
+                    others = []
+                    for fk in unit["files"]:
+                        try:
+                            others.append(src(fk))
+                        except Undecided:
+                            pass
+                    body = inline.inline_helpers(S, cfg.get("src", fnpath), body, known_text, ilog, other_sources=others)
                     g.inlined += ilog.pop("_inlined", [])
                     for k, v in ilog.items():
                         g.rules_applied[k] = g.rules_applied.get(k, 0) + v
@@ -243,6 +249,29 @@ def build(unit, workdir):
                 g.add(ln, origin)
 
     process(_read(os.path.join(unit["dir"], "template.rs")), "template")
+
+    # R23: type aliases of the source files that the unit does not know but the extracted text mentions are copied into the generated file
+    # (an alias is pure naming; its right-hand side goes through the unit's default rules, e.g. path rewrites)
+    gtext = g.text()
+    added = []
+    for rel, S in list(sources.items()):
+        for mm in re.finditer(r"(?m)^\s*(?:pub(?:\([^)]*\))?\s+)?type\s+(\w+)\s*(<[^=;]*>)?\s*=\s*([^;]+);", S.m):
+            if brace_depths(S.m)[mm.start(1)] != 0:
+                continue
+            nm = mm.group(1)
+            if re.search(r"\b%s\b" % re.escape(nm), known_text) or not re.search(r"\b%s\b" % re.escape(nm), gtext) or nm in added:
+                continue
+            rhs = S.text[mm.start(3):mm.end(3)]
+            try:
+                rhs = rewrite.apply_rules(rhs, [r for r in unit.get("rules", []) if r[0] == "sub"], {}, "type " + nm)
+            except Undecided:
+                pass
+            gen = S.text[mm.start(2):mm.end(2)] if mm.group(2) else ""
+            k = max(i for i, ln in enumerate(g.lines) if ln.strip().startswith("fn main()"))
+            g.lines.insert(k, "pub type %s%s = %s;   // R23: alias copied from %s" % (nm, gen, rhs.strip(), rel))
+            g.origin.insert(k, ("alias", (nm, rel)))
+            added.append(nm)
+            g.rules_applied["R23-type-alias"] = g.rules_applied.get("R23-type-alias", 0) + 1
 
     # R16-pad: pad the call sites (inside extracted bodies only) of functions that lost parameters
     if g.padded:
